@@ -113,6 +113,7 @@ UNIT = dict(
     dict(id='push_int_c2', entry='h_push_int', mode='INT', defs={'CAP': 2}, unwind=8, cls='unbounded', note='[INT] as pop_int_c2'),
   ],
   obligations={
+    'nq.sync.acquire': dict(deciding=True, text='sync precondition [INT runs]: the guard acquisitions of _tail / _head and the loads of a node\'s _next are acquire-or-stronger (they are how a node linked by another thread\'s release CAS is reached); the release side is part of nq.commit'),
     'nq.scq.requires': dict(deciding=True, text='every ring operation is called with (entries_per_node, remap_shift), an index < entries_per_node that is outside that ring; enqueue<false,false> only on the never-finalized free ring; set_threshold(3*entries_per_node-1)'),
     'nq.guard.protected': dict(deciding=True, text='a node is dereferenced only through the guard that currently protects it (or while it is still private / in the destructor), never after reclaim or delete'),
     'nq.node_ctor.inv': dict(deciding=True, text='node(): empty allocated ring, full free ring, no live cell; node(value): cell 0 holds the value, allocated = [0], free = [1..)'),
